@@ -1346,6 +1346,18 @@ func (s *sink) handleRetryBatches(
 			return
 		}
 
+		// A batch that was written (canFailFromLoadErrs is cleared when the
+		// request is serialized) and is retried WITHOUT a response - the
+		// request died client side - may have been appended by the broker
+		// with only the acknowledgement lost. A later retriable error code
+		// for the retry says nothing about that earlier attempt, so the
+		// batch is poisoned exactly like a REQUEST_TIMED_OUT response: it
+		// must not be failed from retry or timeout limits. This holds just
+		// the same when the partition moved to another sink meanwhile.
+		if !canFail && !batch.canFailFromLoadErrs {
+			batch.unsureIfProduced = true
+		}
+
 		// If the request failed due to a concurrent metadata update
 		// moving partitions to a different sink (or killing the sink
 		// this partition was on), we can just reset the drain index
@@ -1362,17 +1374,6 @@ func (s *sink) handleRetryBatches(
 			}
 			batch.owner.resetBatchDrainIdx()
 			return
-		}
-
-		// A batch that was written (canFailFromLoadErrs is cleared when the
-		// request is serialized) and is retried WITHOUT a response - the
-		// request died client side - may have been appended by the broker
-		// with only the acknowledgement lost. A later retriable error code
-		// for the retry says nothing about that earlier attempt, so the
-		// batch is poisoned exactly like a REQUEST_TIMED_OUT response: it
-		// must not be failed from retry or timeout limits.
-		if !canFail && !batch.canFailFromLoadErrs {
-			batch.unsureIfProduced = true
 		}
 
 		if (canFail && !batch.unsureIfProduced) || s.cl.cfg.disableIdempotency || s.cl.cfg.allowIdempotentProduceCancellation {
